@@ -14,7 +14,8 @@ HERE = os.path.dirname(os.path.dirname(os.path.abspath(__file__)))
 EVID = os.path.join(HERE, 'evidence')
 NPROC = int(os.environ.get('VERIF_NPROC', '16'))
 PY = sys.executable
-ENV = dict(os.environ, PYTHONPATH='/repo:' + HERE, PYTHONHASHSEED='0', PYTHONDONTWRITEBYTECODE='1')
+REPO = os.environ.get('VERIF_REPO', '/repo')      # the tree under analysis (default /repo; tools/mutcheck.sh may point it at a scratch worktree)
+ENV = dict(os.environ, PYTHONPATH=REPO + ':' + HERE, PYTHONHASHSEED='0', PYTHONDONTWRITEBYTECODE='1')
 
 
 def plain_replay(rep, profile=False, timeout=300):
@@ -298,7 +299,7 @@ def cmd_run(prop, tier):
         assumptions=list(adapt_list.ADAPTATIONS) + list(getattr(mod, 'ASSUMPTIONS', [])),
         wall_s=wall, violations=len(reported),
     )
-    with open(os.path.join(EVID, prop + '.json'), 'w') as f:
+    with open(os.path.join(EVID, prop + os.environ.get('VERIF_EVIDENCE_SUFFIX', '') + '.json'), 'w') as f:
         json.dump(ev, f, indent=1)
     print('shard phase %.1fs' % t_shards, file=sys.stderr)
     print('%s tier=%s paths=%d confirmed=%d nontrivial=%d unknown=%d ignored=%d queries=%d solver_s=%.1f exhaustive=%s '
